@@ -42,15 +42,15 @@ CHECKS["C01"] = ("model_checking", "TLC model checking of Dpop.tla (implementati
     "Executions of the real DPOP computations on the real pseudo-tree, for TLC-generated DCOPs (chains, stars, cycles, n-ary/unary/parallel constraints, "
     "isolated variables, several components; own-value costs; min and max), by reference and through the JSON wire format; TLC checks that quiescence implies "
     "all finished and that the assignment at all-finished is complete and has cost Dcop!Opt.", _N, "DESIGN.md section 4 C01")
-CHECKS["C02"] = ("model_checking", _T,
-    "Executions of the real SyncBB computations on the real ordered graph for TLC-generated binary DCOPs (non-negative and signed costs, min and max, "
+CHECKS["C02"] = ("model_checking", "TLC model checking of SyncBB.tla (implementation-shaped model of SyncBBComputation on the chain of the real ordered graph: get_next_assignment, the last variable's sweep, forward / backward / terminate handlers, pre-start buffering; every start and delivery order) with replay of every explored transition on the real computations; the model's counterexample on signed costs replayed on the real computations regenerates the known finding; " + _T,
+    "SyncBB.tla is checked over TLC-drawn binary instances (invariants QuietMeansFinished, TerminatedMeansOptimal, FirstFinishesFirst, SingleToken, BoundIsACost, PathsWellFormed, ValueInDomain) and bound by replay (bounds, values, cycle counts, path triples of every message compared). Executions of the real SyncBB computations on the real ordered graph for TLC-generated binary DCOPs (non-negative and signed costs, min and max, "
     "variables without constraint); at quiescence every computation has finished and the held values have cost Dcop!Opt.", _N, "DESIGN.md section 4 C02")
 CHECKS["C05"] = ("model_checking", _T,
     "Executions of the real maxsum (synchronous, run for 3*|nodes|+10 rounds) and amaxsum (to quiescence) computations with damping 0, noise 0 (default stability) on "
     "tree-shaped factor graphs whose optimum TLC found to be unique, with dyadic cost tables and with near-tie tables (differences far below the 10% stability); the "
     "assignment selected at the end must be that optimum.", _N, "DESIGN.md section 4 C05")
-CHECKS["C09"] = ("model_checking", _T,
-    "Executions of the real DBA computations on TLC-generated CSPs (tables over {0, infinity}); at every step where a computation reports finished TLC evaluates "
+CHECKS["C09"] = ("model_checking", "TLC model checking of Dba.tla (implementation-shaped model of DbaComputation: wait-ok / wait-improve modes, constraint weights, breakout, termination counter, end flood, postponed lists; every start order, FIFO delivery order and random draw up to a bounded number of rounds) with replay of every explored transition on the real computations; " + _T,
+    "Dba.tla is checked on TLC-drawn CSPs with max_distance = diameter (thorough: + 1) (invariants FinishedOnlyOnSolution, CounterBounded, WeightsPositive, AtMostOnePostponed, NeighbourSkew, ValueInDomain) and bound by replay (whole local state and every message compared). Executions of the real DBA computations on TLC-generated CSPs (tables over {0, infinity}); at every step where a computation reports finished TLC evaluates "
     "all constraints on the values held by all computations.", _N, "DESIGN.md section 4 C09")
 CHECKS["C10"] = ("exploration", _T,
     "Executions of all shipped algorithms (18 algorithm/parameter configurations) with every value_selection call and every current_value logged as a domain "
@@ -187,15 +187,15 @@ CHECKS["C26"] = ("model_checking",
     "ResilientAgent.setup_repair builds them) are evaluated on every assignment.", _NC, "DESIGN.md section 4 C26")
 
 CHECKS["C25"] = ("model_checking",
-    "TLC-drawn deployments replicated on real ResilientAgents through the real Orchestrator (deterministic agent-step runtime, seeded interleavings); outcome and every acceptance judged by TLC against Replication.tla (Judge_C25)",
+    "TLC model checking of Ucs.tla (message-level model of the distributed uniform-cost search of dist_ucs_hostingcosts: every interleaving of replicate() calls and FIFO deliveries; termination, capacity rule, placement conditions, single token per computation) with replay of every explored transition on real UCSReplication objects and Judge_C25 on their message-level executions; TLC-drawn deployments replicated on real ResilientAgents through the real Orchestrator (deterministic agent-step runtime, seeded interleavings); outcome and every acceptance judged by TLC against Replication.tla (Judge_C25)",
     "TLC draws the DCOP (Gen_Dcop, 9 shapes) and the deployment (Gen_C25: capacities from tight to ample, symmetric route costs, hosting costs, placement, k in 1..3) for 3-4 "
     "(quick) / 3-6 agents sharing one process; the DSA computations are deployed through the real orchestrator and replicated with dist_ucs_hostingcosts under seeded "
     "interleavings of agent loop iterations; every _accept_replica call is recorded with what the agent held; TLC checks: all agents report done, hosts distinct, not the "
     "owner, at most k, recorded in the directory and actually held, and each acceptance satisfies remaining capacity >= footprint + worst case for k-1 owners. "
     "With 4 agents or more the first run of each deployment goes on: the agent holding replicas of the most owners is stopped (no repair), and the acceptances of "
     "the re-replication it triggers are judged by the same rule.",
-    "Trusted: TLC (Replication.tla), vlib/orchrt.py + vlib/agentrt.py, the recorder around _accept_replica. Interleavings are sampled; the UCS search itself (budgets, "
-    "paths) is not modelled step by step (DESIGN.md section 5).", "DESIGN.md section 4 C25")
+    "Trusted: TLC (Replication.tla), vlib/orchrt.py + vlib/agentrt.py, the recorder around _accept_replica. Agent-level interleavings are sampled; the UCS search itself (budgets, "
+    "paths tables) is modelled step by step in Ucs.tla and explored exhaustively for 3 (thorough: 4) agents; a departure in mid-placement is not modelled.", "DESIGN.md section 4 C25 and Part II")
 
 CHECKS["C27"] = ("model_checking",
     "whole resilient runs on real objects (deploy, replicate, run, scenario removal event, MGM2 repair DCOP) in the deterministic orchestrated runtime with seeded interleavings; the state after the repair judged by TLC against Repair.tla (Judge_C27)",
